@@ -25,6 +25,9 @@ func btWrite(root string, files, deps map[string]string) error {
 		return err
 	}
 	for n, src := range files {
+		if err := os.MkdirAll(filepath.Dir(filepath.Join(root, "p", n)), 0o755); err != nil {
+			return err
+		}
 		if err := os.WriteFile(filepath.Join(root, "p", n), []byte(src), 0o644); err != nil {
 			return err
 		}
@@ -48,6 +51,16 @@ func btReadBack(dir string) (map[string]string, error) {
 		return nil, err
 	}
 	for _, e := range ents {
+		if e.IsDir() {
+			sub, err := btReadBack(filepath.Join(dir, e.Name()))
+			if err != nil {
+				return nil, err
+			}
+			for n, c := range sub {
+				out[e.Name()+"/"+n] = c
+			}
+			continue
+		}
 		b, err := os.ReadFile(filepath.Join(dir, e.Name()))
 		if err != nil {
 			return nil, err
@@ -92,7 +105,7 @@ func init() {
 			}
 			return snapshotUniverse(u), nil
 		},
-		Run: func(files, deps map[string]string, tag, out string) (map[string]string, *common.USnap, error) {
+		Run: func(files, deps map[string]string, tag, out string, wild bool) (map[string]string, *common.USnap, error) {
 			chdirMu.Lock()
 			defer chdirMu.Unlock()
 			root, err := os.MkdirTemp("", "verif-bt-")
@@ -114,16 +127,24 @@ func init() {
 			}
 			var seen *common.USnap
 			var herr error
+			patterns := []string{btPkg}
+			if wild {
+				patterns = []string{"./..."}
+			}
 			err = gengo.Execute(namer.NameSystems{"public": namer.NewPublicNamer(0), "raw": namer.NewRawNamer("", nil)}, "public",
 				func(c *generator.Context) []generator.Target {
 					seen = snapshotUniverse(c.Universe)
 					var header []byte
 					header, herr = gengo.GoBoilerplate("", tag, "")
-					return []generator.Target{&generator.SimpleTarget{PkgName: "p", PkgPath: btPkg, PkgDir: filepath.Join(root, "p"), HeaderComment: header,
+					pkgName, pkgPath, pkgDir := "p", btPkg, filepath.Join(root, "p")
+					if wild {
+						pkgName, pkgPath, pkgDir = "zzgen", btPkg+"/zzgen", filepath.Join(root, "p", "zzgen")
+					}
+					return []generator.Target{&generator.SimpleTarget{PkgName: pkgName, PkgPath: pkgPath, PkgDir: pkgDir, HeaderComment: header,
 						GeneratorsFunc: func(*generator.Context) []generator.Generator {
 							return []generator.Generator{inplaceGen{GoGenerator: generator.GoGenerator{OutputFilename: out}, pkg: btPkg}}
 						}}}
-				}, tag, []string{btPkg})
+				}, tag, patterns)
 			if err == nil {
 				err = herr
 			}
